@@ -31,6 +31,20 @@ var c18Schema = map[string][]string{
 	"/cont/list/inner": {"id"},
 	"/cont/l2":         {"k1", "k2"},
 	"/cont/l4":         {"n"},
+	"/cont/l5":         {"k1", "k2"},
+}
+
+// c18Universe2: a second, small universe for entries of a two-key list whose key values are equal once written one
+// after the other (a1|12 = a|112, 1|12 = 11|2): distinct key sets, so distinct entries. Every subset is enumerated.
+var c18Universe2 = []c18Item{
+	{Path: "/cont/l5[k1=a1][k2=12]/val", Kind: "s", Val: "p"},
+	{Path: "/cont/l5[k1=a][k2=112]/val", Kind: "s", Val: "q"},
+	{Path: "/cont/l5[k1=a][k2=112]/zz", Kind: "s", Val: "r"},
+	{Path: "/cont/l5[k1=1][k2=12]/val", Kind: "s", Val: "s"},
+	{Path: "/cont/l5[k1=11][k2=2]/val", Kind: "s", Val: "t"},
+	{Path: "/cont/l5[k1=11][k2=2]/k1", Kind: "s", Val: "11", KeyLeaf: true},
+	{Path: "/cont/l5[k1=a1][k2=12]"},
+	{Path: "/cont/leafA", Kind: "s", Val: "x"},
 }
 
 var c18Universe = []c18Item{
@@ -483,7 +497,7 @@ func checkC18(rc *RunCtx) *Report {
 			return rep
 		}
 		for i := range s {
-			for _, u := range c18Universe {
+			for _, u := range append(append([]c18Item{}, c18Universe...), c18Universe2...) {
 				if u.Path == s[i].Path {
 					s[i].KeyLeaf = u.KeyLeaf
 				}
@@ -504,6 +518,7 @@ func checkC18(rc *RunCtx) *Report {
 	}
 	evals, nontrivial := 0, 0
 	var cur c18Set
+	universe := c18Universe
 	var rec func(start int)
 	rec = func(start int) {
 		if len(cur) > 0 {
@@ -520,8 +535,8 @@ func checkC18(rc *RunCtx) *Report {
 		if len(cur) == maxSize {
 			return
 		}
-		for i := start; i < len(c18Universe); i++ {
-			u := c18Universe[i]
+		for i := start; i < len(universe); i++ {
+			u := universe[i]
 			if u.Kind != "" {
 				cur = append(cur, u)
 				rec(i + 1)
@@ -535,9 +550,11 @@ func checkC18(rc *RunCtx) *Report {
 		}
 	}
 	rec(0)
+	universe, maxSize = c18Universe2, len(c18Universe2)
+	rec(0)
 	rep.Coverage["evaluations"] = evals
 	rep.Coverage["distinct_nontrivial"] = nontrivial
-	rep.Coverage["rule"] = fmt.Sprintf("every set of 1..%d distinct paths from a universe of %d (20 leaves, each live or tombstoned, incl. prefix-sharing sibling names, nested list, two-key list with numeric/boolean keys, key leaves with values 0/false, key values containing '='; 8 container / list-entry / whole-list tombstones), v2 and v3; oracles: PrunePathValues/PrunePathMap (both flavours) = element-aware reference, flatten(BuildTree) = live leaves, one entry per key set; non-trivial = sets in which some but not all members survive pruning (each set is distinct by construction)", maxSize, len(c18Universe))
+	rep.Coverage["rule"] = fmt.Sprintf("every set of 1..%d distinct paths from a universe of %d (20 leaves, each live or tombstoned, incl. prefix-sharing sibling names, nested list, two-key list with numeric/boolean keys, key leaves with values 0/false, key values containing '='; 8 container / list-entry / whole-list tombstones), plus every subset of a second universe of %d paths (entries of a two-key list whose key values coincide when written one after the other), v2 and v3; oracles: PrunePathValues/PrunePathMap (both flavours) = element-aware reference, flatten(BuildTree) = live leaves, one entry per key set; non-trivial = sets in which some but not all members survive pruning (each set is distinct by construction)", map[bool]int{false: 4, true: 5}[rc.Thorough()], len(c18Universe), len(c18Universe2))
 	return rep
 }
 
